@@ -141,6 +141,30 @@ class Scenario:
 
     slots = None  # lid -> 'all' | filter index: every listener object is used for ONE registration only
 
+    def in_mutant(self, impl):
+        """a valid datagram of one of the other kinds, structurally mutated (C03): only the lock-step comparison
+        judges these, the history oracles never see them"""
+        rng = self.rng
+        saved = list(self.rec.items)
+        base = rng.choice([self.in_offer, self.in_subscribe, self.in_find])(impl)
+        self.rec.items[:] = saved  # not part of the oracle-visible history
+        toks = base.split(" ")
+        data = bytes.fromhex(toks[4])
+        k = rng.random()
+        if k < 0.25:
+            # foreign but well-formed
+            m, _ = H.SOMEIPHeader.parse(data)
+            import dataclasses
+            fld = rng.choice(["service_id", "method_id", "interface_version", "message_type", "return_code"])
+            val = {"service_id": 0x1234, "method_id": 0x8101, "interface_version": 2,
+                   "message_type": H.SOMEIPMessageType.REQUEST, "return_code": H.SOMEIPReturnCode.E_NOT_OK}[fld]
+            data = dataclasses.replace(m, **{fld: val}).build()
+        else:
+            data, _kind = mutate.mutate(rng, data)
+            if rng.random() < 0.3:
+                data = bytes.fromhex(toks[4]) + data
+        return f"in dgram {toks[2]} {toks[3]} {hx(data)}"
+
     def in_watch(self, impl):
         rng = self.rng
         lid = rng.randrange(self.nlisteners)
@@ -261,7 +285,7 @@ class Scenario:
              "stopsub": lambda: self.in_subscribe(impl, "stopsub"), "subreboot": lambda: self.in_subscribe(impl, "subreboot"),
              "find": lambda: self.in_find(impl), "watch": lambda: self.in_watch(impl), "life": lambda: self.in_lifecycle(impl),
              "csub": lambda: self.in_client_sub(impl), "nak": lambda: self.in_nak(impl),
-             "ann": lambda: self.in_announcer(impl)}[k]
+             "ann": lambda: self.in_announcer(impl), "mutant": lambda: self.in_mutant(impl)}[k]
         return f()
 
     # ---------------- scheduler
